@@ -187,6 +187,8 @@ func (s *Sim) apply(st Step) bool {
 		return s.stepListerFault(st)
 	case "settle":
 		return s.stepSettle()
+	case "finish":
+		return s.stepFinish()
 	}
 	harnessf("unknown step kind %q", st.K)
 	return false
@@ -213,8 +215,30 @@ func (s *Sim) stepRelease(st Step) bool {
 	if s.quiet {
 		code = FNone
 	}
+	info := RelInfo{Step: s.stepNo, Write: w.pending.IsWrite(), Desc: w.pending.Verb + " " + w.pending.Kind.String() + " " + w.pending.Name}
+	if w.rec != nil {
+		info.Rec = w.rec.ID
+	}
 	s.releaseWith(w, code, st.C)
+	info.Last = w.done
+	s.Releases = append(s.Releases, info)
 	return true
+}
+
+// stepFinish runs every in-flight reconcile to completion without faults and
+// without starting new ones.
+func (s *Sim) stepFinish() bool {
+	any := false
+	for i := 0; i < 10000; i++ {
+		ws := s.ParkedWorkers()
+		if len(ws) == 0 {
+			return any
+		}
+		s.releaseWith(ws[0], FNone, 0)
+		any = true
+	}
+	harnessf("finish: workers never complete")
+	return any
 }
 
 // releaseWith releases the pending call of a with fault code; claim creates of
